@@ -1,20 +1,261 @@
-// Command c05 decides property C05 (pubsub.Queue is a linearizable bounded
-// FIFO). Sequential conformance against the reference model lives in seqpart;
-// the concurrent (schedule-exploring, porcupine-checked) part is added here.
+// C05 (concurrent half): every history of small concurrent programs over the
+// real pubsub.Queue, under every schedule up to the deviation bound, is
+// linearizable with respect to the reference model validated by the sequential
+// half (checks/c05/seqpart). Linearizability of each recorded call/return
+// history is decided by porcupine.
 package main
 
 import (
-	"flag"
-	"os"
+	"context"
+	"errors"
+	"fmt"
+	"strings"
+	"time"
 
-	"verif/checks/c05/seqpart"
-	"verif/rep"
+	"github.com/anishathalye/porcupine"
+	"github.com/tychoish/fun/pubsub"
+	"verif/checks/c05/model"
+	"verif/vs"
+	"verif/vs/runner"
 )
 
+type opRec struct {
+	client    int
+	in        model.Input
+	out       model.Output
+	call, ret int64
+	done      bool
+}
+
+func classify(err error) model.ErrKind {
+	switch {
+	case err == nil:
+		return model.OK
+	case errors.Is(err, pubsub.ErrQueueFull):
+		return model.ErrFull
+	case errors.Is(err, pubsub.ErrQueueNoCredit):
+		return model.ErrNoCredit
+	case errors.Is(err, pubsub.ErrQueueClosed):
+		return model.ErrClosed
+	case errors.Is(err, context.Canceled), errors.Is(err, context.DeadlineExceeded):
+		return model.ErrCtx
+	}
+	return model.ErrOther
+}
+
+func newQueue(o model.Options) *pubsub.Queue[int] {
+	if o.Unlimited {
+		return pubsub.NewUnlimitedQueue[int]()
+	}
+	q, err := pubsub.NewQueue[int](pubsub.QueueOptions{HardLimit: o.HardLimit, SoftQuota: o.SoftQuota, BurstCredit: o.BurstCredit})
+	if err != nil {
+		panic(err)
+	}
+	return q
+}
+
+func call(q *pubsub.Queue[int], d pubsub.Distributor[int], ctx context.Context, in model.Input) model.Output {
+	switch in.Kind {
+	case model.Add:
+		return model.OutErr(classify(q.Add(in.Val)))
+	case model.BlockingAdd:
+		return model.OutErr(classify(q.BlockingAdd(ctx, in.Val)))
+	case model.Remove:
+		v, ok := q.Remove()
+		return model.OutRemove(v, ok)
+	case model.Wait:
+		v, err := q.Wait(ctx)
+		return model.OutWait(v, classify(err))
+	case model.Len:
+		return model.OutLen(q.Len())
+	case model.Close:
+		_ = q.Close()
+		return model.Output{}
+	case model.Send:
+		return model.OutErr(classify(d.Send(ctx, in.Val)))
+	case model.Receive:
+		v, err := d.Receive(ctx)
+		return model.OutWait(v, classify(err))
+	case model.DistLen:
+		return model.OutLen(d.Len())
+	}
+	panic("unknown op")
+}
+
+func porcupineModel(init model.State) porcupine.Model {
+	return porcupine.Model{
+		Init: func() interface{} { return init.Clone() },
+		Step: func(state, input, output interface{}) (bool, interface{}) {
+			ok, next := model.Step(state.(model.State), input.(model.Input), output.(model.Output))
+			return ok, next
+		},
+		Equal: func(a, b interface{}) bool { return a.(model.State).Equal(b.(model.State)) },
+		DescribeOperation: func(input, output interface{}) string {
+			in := input.(model.Input)
+			return fmt.Sprintf("%v -> %s", in, output.(model.Output).Format(in.Kind))
+		},
+	}
+}
+
+// program: pre-state built sequentially from `pre` operations, then one thread
+// per element of `threads`, each running its operations in order. Blocking
+// calls that are still pending at quiescence are released by cancelling their
+// contexts (a context error is a no-op in the specification).
+func program(opt model.Options, pre []model.Input, threads [][]model.Input) vs.Scenario {
+	return func() (func(), func(*vs.End) (string, string)) {
+		var recs []*opRec
+		var clock int64
+		init := model.MustNew(opt)
+		body := func() {
+			q := newQueue(opt)
+			d := q.Distributor()
+			for _, in := range pre {
+				out := call(q, d, context.Background(), in)
+				var ok bool
+				ok, init = model.Step(init, in, out)
+				if !ok {
+					panic(fmt.Sprintf("pre-state operation %v -> %s does not follow the sequential model", in, out.Format(in.Kind)))
+				}
+			}
+			ctx, cancel := context.WithCancel(context.Background())
+			fin := make(chan struct{}, len(threads))
+			for ci, ops := range threads {
+				ci, ops := ci, ops
+				go func() {
+					for _, in := range ops {
+						r := &opRec{client: ci, in: in}
+						recs = append(recs, r)
+						clock++
+						r.call = clock
+						out := call(q, d, ctx, in)
+						clock++
+						r.ret = clock
+						r.out, r.done = out, true
+						vs.Progress()
+					}
+					fin <- struct{}{}
+				}()
+			}
+			vs.Quiesce()
+			cancel()
+			for range threads {
+				<-fin
+			}
+		}
+		check := func(e *vs.End) (string, string) {
+			if len(e.Panics) > 0 {
+				return "panic/" + e.Panics[0].Site, e.Panics[0].Value
+			}
+			if e.Status != vs.Clean {
+				return "not-released-by-cancel/" + e.Status.String() + "/" + e.LibSites(), fmt.Sprintf("%+v", e.Stuck)
+			}
+			var hist []porcupine.Operation
+			for _, r := range recs {
+				if !r.done {
+					continue
+				}
+				hist = append(hist, porcupine.Operation{ClientId: r.client, Input: r.in, Output: r.out, Call: r.call, Return: r.ret})
+			}
+			if porcupine.CheckOperations(porcupineModel(init), hist) {
+				return "", ""
+			}
+			var kinds []string
+			var b strings.Builder
+			seen := map[string]bool{}
+			for _, r := range recs {
+				fmt.Fprintf(&b, "[client %d: %v -> %s @%d..%d] ", r.client, r.in, r.out.Format(r.in.Kind), r.call, r.ret)
+				if k := r.in.Kind.String(); !seen[k] {
+					seen[k] = true
+					kinds = append(kinds, k)
+				}
+			}
+			return "not-linearizable", fmt.Sprintf("options %v, initial state %s: %s", opt, init.Key(), b.String())
+		}
+		return body, check
+	}
+}
+
+func name(ops []model.Input) string {
+	var s []string
+	for _, o := range ops {
+		s = append(s, o.String())
+	}
+	return strings.Join(s, ";")
+}
+
+func build(tier string) ([]runner.Instance, time.Duration) {
+	bound, budget := 2, 80*time.Second
+	if tier == "thorough" {
+		bound, budget = 3, 14*time.Minute
+	}
+	alpha := []model.Input{
+		{Kind: model.Add, Val: 1}, {Kind: model.Add, Val: 2}, {Kind: model.Remove}, {Kind: model.Wait},
+		{Kind: model.BlockingAdd, Val: 3}, {Kind: model.Len}, {Kind: model.Close}, {Kind: model.Receive}, {Kind: model.Send, Val: 4},
+	}
+	var seqs1, seqs2 [][]model.Input
+	for _, a := range alpha {
+		seqs1 = append(seqs1, []model.Input{a})
+		for _, b := range alpha {
+			seqs2 = append(seqs2, []model.Input{a, b})
+		}
+	}
+	type cfg struct {
+		opt model.Options
+		pre []model.Input
+		tag string
+	}
+	cfgs := []cfg{
+		{model.Options{Unlimited: true}, nil, "unlimited/empty"},
+		{model.Options{Unlimited: true}, []model.Input{{Kind: model.Add, Val: 9}}, "unlimited/one"},
+		{model.Options{HardLimit: 1, SoftQuota: 1}, []model.Input{{Kind: model.Add, Val: 9}}, "hard1/full"},
+		{model.Options{HardLimit: 2, SoftQuota: 1, BurstCredit: 1}, []model.Input{{Kind: model.Add, Val: 9}}, "h2s1c1/one"},
+	}
+	if tier == "thorough" {
+		cfgs = append(cfgs,
+			cfg{model.Options{HardLimit: 1, SoftQuota: 1}, nil, "hard1/empty"},
+			cfg{model.Options{Unlimited: true}, []model.Input{{Kind: model.Add, Val: 9}, {Kind: model.Close}}, "unlimited/closed-one"},
+			cfg{model.Options{HardLimit: 3, SoftQuota: 2, BurstCredit: 0.5}, []model.Input{{Kind: model.Add, Val: 8}, {Kind: model.Add, Val: 9}}, "h3s2c.5/two"},
+		)
+	}
+	var out []runner.Instance
+	add := func(c cfg, threads [][]model.Input) {
+		var parts []string
+		for _, t := range threads {
+			parts = append(parts, name(t))
+		}
+		out = append(out, runner.Instance{Group: "lin/" + c.tag, Name: "lin/" + c.tag + "/" + strings.Join(parts, " || "), Bound: bound, Scenario: program(c.opt, c.pre, threads)})
+	}
+	for _, c := range cfgs {
+		// two threads: (2 ops || 1 op), and (1 op || 1 op || 1 op) over a reduced alphabet
+		for _, a := range seqs2 {
+			for _, b := range seqs1 {
+				add(c, [][]model.Input{a, b})
+			}
+		}
+		if tier == "thorough" {
+			for i, a := range seqs2 {
+				for j, b := range seqs2 {
+					if j < i {
+						continue
+					}
+					add(c, [][]model.Input{a, b})
+				}
+			}
+		}
+		core := []model.Input{{Kind: model.Add, Val: 1}, {Kind: model.Remove}, {Kind: model.Wait}, {Kind: model.BlockingAdd, Val: 3}, {Kind: model.Close}}
+		for i, a := range core {
+			for j := i; j < len(core); j++ {
+				for k := j; k < len(core); k++ {
+					add(c, [][]model.Input{{a}, {core[j]}, {core[k]}})
+				}
+			}
+		}
+	}
+	return out, budget
+}
+
 func main() {
-	tier := flag.String("tier", "quick", "quick|thorough")
-	flag.Parse()
-	r := rep.New("C05", *tier, "model_checking")
-	seqpart.Run(r, *tier)
-	os.Exit(r.Finish())
+	runner.Main(runner.Options{Property: "C05", Level: "model_checking", Build: build,
+		Rule: "concurrent half: every schedule (deviation bounded, bounds iterated) of each closed program {pre-state} x {2-3 threads x 1-2 operations}; the call/return history of every execution is checked for linearizability against the reference model with porcupine; evaluations = executions = histories checked",
+		Assume: []string{"model of sync/context/channels in verif/vs (DESIGN §2.2)", "logical timestamps: a global counter of call/return events of the serialized execution", "pending blocking calls are released by cancelling their context at quiescence; a context error is a no-op in the specification"}})
 }
